@@ -96,6 +96,18 @@ def binopF (op : BinOp) (a b : FVal) : Except String FVal :=
       | .gt => .ok (.bool (x > y))
       | .ge => .ok (.bool (x ≥ y))
       | _ => .error "type"
+    | .bool x, .bool y =>
+      match op with
+      | .lt => .ok (.bool (!x && y))
+      | .le => .ok (.bool (!x || y))
+      | .gt => .ok (.bool (x && !y))
+      | .ge => .ok (.bool (x || !y))
+      | _ => .error "type"
+    | .nil, .nil =>
+      match op with
+      | .lt | .gt => .ok (.bool false)
+      | .le | .ge => .ok (.bool true)
+      | _ => .error "type"
     | _, _ => .error "type"
 
 def applyF (op : AssignOp) (cur v : FVal) : Except String FVal :=
@@ -130,6 +142,9 @@ def vCompareF (k : Nat) (a b : FVal) : Except String FVal :=
       .ok (.bool (if k == 1 then x < y else if k == 2 then x ≤ y else if k == 5 then x > y else x ≥ y))
     | .str x, .str y =>
       .ok (.bool (if k == 1 then x < y else if k == 2 then x ≤ y else if k == 5 then x > y else x ≥ y))
+    | .bool x, .bool y =>
+      .ok (.bool (if k == 1 then !x && y else if k == 2 then !x || y else if k == 5 then x && !y else x || !y))
+    | .nil, .nil => .ok (.bool (if k == 1 then false else if k == 2 then true else if k == 5 then false else true))
     | _, _ => .error "type"
 
 /-! ### shallow syntactic classes (head constructor only) -/
